@@ -226,26 +226,115 @@ def check_precision(prog, rep, m):
             rep.add('K3', g, f.qualname, norm(call)[:120], call.lineno, dt in WIDE,
                     'an array that holds class breaks taken from the data must not be narrower than float64: a '
                     'float64 maximum rounded down to float32 leaves the maximum cell above the last break (NaN)')
-    # last break forced to the exact maximum
+    # last break forced to the exact maximum: the vector handed to the binning kernel, as it is at the call
+    for fname, label in (('_run_natural_break', 'natural_breaks'), ('_run_equal_interval', 'equal_interval')):
+        f = m.funcs.get(fname)
+        if f is None:
+            continue
+        bcalls = [c for c in calls(f.node) if c in f.own_nodes() and short(c) == '_bin' and len(c.args) >= 2]
+        mx = [v for v in f.local_assigns().get('max_data', []) if isinstance(v, ast.AST)]
+        okm = any(norm(v).replace(' ', '') in ('np.max(data[np.isfinite(data)])', 'np.nanmax(data[np.isfinite(data)])',
+                                              'module.nanmax(data)') for v in mx)
+        pm = parent_map(f.node)
+        for c in bcalls:
+            n += 1
+            ok, why = last_is_max(f, pm, c, c.args[1])
+            rep.add('K3', f, label, '%s: last break == max_data when binned' % norm(c)[:80], c.lineno, ok and okm,
+                    'the last break of the vector handed to the binning kernel must be the exact maximum of the finite cells '
+                    '(accumulated rounding of min + i*width, or a sample that misses the maximum, leaves the maximum cell '
+                    'above the last break = NaN): ' + why)
+    # the Jenks fit sees every sampled cell: no de-duplication on the way (ties carry weight in the within-class sums)
     f = m.funcs.get('_run_natural_break')
     if f is not None:
-        ok = any(isinstance(s, ast.Assign) and norm(s.targets[0]) == 'bins[-1]' and norm(s.value) == 'max_data'
-                 for s in f.own_nodes())
-        mx = [v for v in f.local_assigns().get('max_data', []) if isinstance(v, ast.AST)]
-        okm = len(mx) == 1 and norm(mx[0]).replace(' ', '') in ('np.max(data[np.isfinite(data)])', 'np.nanmax(data[np.isfinite(data)])')
-        n += 1
-        rep.add('K3', f, 'natural_breaks', 'bins[-1] = max_data (max of the finite cells)', f.node.lineno, ok and okm,
-                'the last break must be the exact maximum of the finite cells of the whole raster (the sample may miss it)')
-    g = m.funcs.get('_run_equal_interval')
-    if g is not None:
-        ok_np = any(isinstance(s, ast.Assign) and norm(s.targets[0]) == 'cuts[-1]' and norm(s.value) == 'max_data'
-                    for s in g.own_nodes())
-        ok_da = any(isinstance(s, ast.Assign) and isinstance(s.value, ast.Call) and short(s.value) == 'concatenate' and
-                    'max_data' in norm(s.value) and 'cuts[:k - 1]' in norm(s.value) for s in g.own_nodes())
-        n += 1
-        rep.add('K3', g, 'equal_interval', 'last cut forced to max_data on the numpy and the dask branch', g.node.lineno,
-                ok_np and ok_da, 'accumulated rounding of min + i*width must not leave the maximum above the last cut')
+        jc = [c for c in calls(f.node) if c in f.own_nodes() and short(c) == '_run_jenks' and c.args]
+        for c in jc:
+            n += 1
+            seen = set()
+            work = [c.args[0]]
+            dedup = None
+            while work:
+                e = work.pop()
+                for x in ast.walk(e):
+                    if isinstance(x, ast.Call) and short(x) in ('unique', 'set', 'fromkeys', 'drop_duplicates'):
+                        dedup = norm(x)[:60]
+                    if isinstance(x, ast.Name) and x.id not in seen and x.id not in f.params:
+                        seen.add(x.id)
+                        work.extend(v for v in f.local_assigns().get(x.id, []) if isinstance(v, ast.AST))
+            rep.add('K3', f, 'natural_breaks', '%s: fitted on every sampled cell' % norm(c), c.lineno, dedup is None,
+                    'the Jenks model minimises the within-class sum of squared deviations over all cells: fitting it on '
+                    'de-duplicated values (%s) ignores how often a value occurs and moves the breaks' % dedup)
     return n
+
+
+def last_is_max(f, pm, call, barg):
+    """(ok, why): on every path to the call, the most recent statement touching the break vector forces its last
+    element to max_data: `v[-1] = max_data` or `v = concatenate([..., max_data.reshape(1)])`; aliases are followed,
+    if/else branches are followed separately; a slice / rebuild of the vector in between (or at the call) loses it."""
+    if not isinstance(barg, ast.Name):
+        return False, 'the vector is transformed at the call (%s)' % norm(barg)
+
+    def touches(s, name):
+        for x in ast.walk(s):
+            if isinstance(x, ast.Name) and x.id == name and isinstance(x.ctx, ast.Store):
+                return True
+            if isinstance(x, ast.Subscript) and norm(x.value) == name and isinstance(x.ctx, ast.Store):
+                return True
+            if isinstance(x, ast.Call) and isinstance(x.func, ast.Attribute) and norm(x.func.value) == name and \
+                    x.func.attr in ('sort', 'resize', 'fill', 'put', 'itemset'):
+                return True
+        return False
+
+    def scan(stmts, name):
+        """stmts: the statements before the point of interest, innermost block first then outer ones (a list of lists).
+        returns (True, '') / (False, why) / None when nothing touches the vector"""
+        for bi, blk in enumerate(stmts):
+            for si in range(len(blk) - 1, -1, -1):
+                s = blk[si]
+                if not touches(s, name):
+                    continue
+                rest = [blk[:si]] + stmts[bi + 1:]
+                if isinstance(s, ast.Assign) and isinstance(s.targets[0], ast.Subscript) and norm(s.targets[0].value) == name:
+                    if norm(s.targets[0].slice) == '-1' and norm(s.value) == 'max_data':
+                        return True, ''
+                    if norm(s.targets[0].slice) != '-1' and isinstance(s.targets[0].slice, ast.Constant):
+                        continue        # another single element: the last one is untouched by it
+                    return False, 'last store into %s is `%s`' % (name, norm(s))
+                if isinstance(s, ast.Assign) and any(isinstance(t, ast.Name) and t.id == name for t in s.targets):
+                    v = s.value
+                    if isinstance(v, ast.Name):
+                        return scan(rest, v.id) or (False, 'nothing forces %s[-1] = max_data' % v.id)
+                    if isinstance(v, ast.Call) and short(v) == 'concatenate' and v.args and isinstance(v.args[0], (ast.List, ast.Tuple)) \
+                            and v.args[0].elts and norm(v.args[0].elts[-1]).replace(' ', '') in ('max_data.reshape(1)', '[max_data]', 'np.array([max_data])'):
+                        return True, ''
+                    return False, '%s is rebuilt by `%s` after the maximum was forced (or never forced)' % (name, norm(s)[:80])
+                if isinstance(s, ast.If):
+                    res = []
+                    for br in (s.body, s.orelse):
+                        r = scan([br] + rest, name)
+                        res.append(r if r is not None else (False, 'a branch of `if %s` never forces the maximum' % norm(s.test)[:40]))
+                    bad = [r for r in res if not r[0]]
+                    return (False, bad[0][1]) if bad else (True, '')
+                if isinstance(s, ast.Expr) and isinstance(s.value, ast.Call) and isinstance(s.value.func, ast.Attribute) and \
+                        s.value.func.attr == 'sort' and norm(s.value.func.value) == name:
+                    return False, '%s.sort() after the maximum was forced (or never forced)' % name
+                return False, '%s is modified inside `%s`' % (name, norm(s)[:50])
+        return None
+    st = call
+    while st is not None and not isinstance(st, ast.stmt):
+        st = pm.get(st)
+    blocks = []
+    cur = st
+    while cur is not None:
+        parent = pm.get(cur)
+        if parent is None:
+            break
+        for fld in ('body', 'orelse', 'finalbody'):
+            b = getattr(parent, fld, None)
+            if isinstance(b, list) and cur in b:
+                blocks.append(b[:b.index(cur)])
+        cur = parent
+    r = scan(blocks, barg.id)
+    return r if r is not None else (False, 'no statement forces %s[-1] = max_data before the call' % barg.id)
 
 
 def check_formulas(prog, rep, m):
